@@ -235,6 +235,11 @@ impl Scenario for Close {
             v.push(json!({"who": "server", "after": "closeok", "stall": stall, "code": 320, "answer_crossing": true}));
         }
         v.push(json!({"who": "client", "after": "closeok", "stall": false, "code": 320, "crossing_same_read": true}));
+        // queues of one entry and a high-water mark of 0 behind a stalled transport: when the close
+        // happens a caller is blocked handing its request over (not yet waiting for a reply)
+        for who in ["server", "client"] {
+            v.push(json!({"who": who, "after": "closeok", "stall": true, "code": 320, "tight": true}));
+        }
         v
     }
     fn bound(&self, tier: &str, p: &Value) -> usize {
@@ -260,6 +265,7 @@ impl Scenario for Close {
         let mut broker = StdBroker::new(Handshake::default());
         let server = p["who"] == "server";
         let big = p["big"] == true;
+        let tight = p["tight"] == true;
         let reopened = p["reopened"] == true;
         let code = p["code"].as_u64().unwrap() as u16;
         let text = p["text"].as_str().unwrap_or("server says bye").to_string();
@@ -297,7 +303,8 @@ impl Scenario for Close {
             broker: Box::new(broker),
             cfg,
             root: Box::new(move |ctx: Ctx| {
-                let mut conn = match open(&ctx, ConnectionOptions::default().heartbeat(if slow { 1 } else { 0 }), ConnectionTuning::default()) {
+                let tuning = if tight { ConnectionTuning::default().mem_channel_bound(1).buffered_writes_high_water(0).buffered_writes_low_water(0) } else { ConnectionTuning::default() };
+                let mut conn = match open(&ctx, ConnectionOptions::default().heartbeat(if slow { 1 } else { 0 }), tuning) {
                     Ok(c) => c,
                     Err(e) => {
                         ctx.log(format!("open -> Err({})", err_name(&e)));
